@@ -52,3 +52,26 @@ Definition c02_typed_record (r : rrecord) : rrecord * bool :=
   | Some its => (mkR (r_owner r) (r_type r) (r_class r) (r_ttl r) false its, true)
   | None => (r, false)
   end.
+
+(* ---- typed EDNS options: rows of C05's option table.
+   A typed option is (code, value of option_schema code); OptBuilder::push
+   writes code, compose_len and the composed data. *)
+Definition opt_data (o : N * value) : bytes := compose (C05.Model.option_schema (fst o)) (snd o).
+Definition raw_of_typed (o : N * value) : N * N * bytes := (fst o, len (opt_data o), opt_data o).
+Definition typed_opts (l : list (N * value)) : list (N * N * bytes) := map raw_of_typed l.
+
+(* driver entry point: an option the harness pushed as a value of the library's
+   option type is re-derived from its octets by C05's row for the code *)
+Definition c02_typed_option (o : N * N * bytes) : (N * N * bytes) * bool :=
+  let '(code, dlen, data) := o in
+  match C05.Model.c05_optdata code data with
+  | Ok v => (raw_of_typed (code, v), true)
+  | _ => (o, false)
+  end.
+
+(* ---- the question counter at its ceiling, by arithmetic.
+   n root questions (type 1, class 1) pushed into a Vec without compressor:
+   the count, the message length and whether push number n failed with
+   CountOverflow.  ProofsCount.v proves that this is what the step model does. *)
+Definition c02_count (n : N) : N * N * bool :=
+  (N.min n count_max, header_len + 5 * N.min n count_max, count_max <? n).
